@@ -154,8 +154,8 @@ func worker(scenarios []Scenario, sh string, budget time.Duration) {
 		if min := budget / 40; share < min {
 			share = min
 		}
-		if share < 5*time.Second {
-			share = 5 * time.Second
+		if share < 10*time.Second {
+			share = 10 * time.Second
 		}
 		scDeadline := time.Now().Add(share)
 		if scDeadline.After(deadline) {
